@@ -319,6 +319,9 @@ func (t *gotr) call(v *ast.CallExpr) (string, string) {
 	case *ast.Ident:
 		switch f.Name {
 		case "uint":
+			if len(v.Args) == 1 && isLit(v.Args[0]) {
+				return Src(t.fset, v.Args[0]), "uint"
+			}
 			if len(v.Args) == 1 {
 				x, xt := t.expr(v.Args[0])
 				if xt == "int" {
@@ -651,6 +654,21 @@ func (t *gotr) stmt(s ast.Stmt, ind string) string {
 					e, et := t.expr(c.Args[1])
 					if gtElem[xt] == et {
 						return ind + x + " := " + x + " ++ [" + e + "]\n"
+					}
+				}
+			}
+		}
+		// x *= k / x += k on integers
+		if (v.Tok == token.MUL_ASSIGN || v.Tok == token.ADD_ASSIGN) && len(v.Lhs) == 1 && len(v.Rhs) == 1 {
+			if id, ok := v.Lhs[0].(*ast.Ident); ok {
+				if lt, ok := t.lookup(id.Name); ok && (lt == "uint" || lt == "int") && !t.isLoopVar(id.Name) {
+					e, ety := t.expr(v.Rhs[0])
+					if ety == lt || (ety == "int" && isLit(v.Rhs[0])) {
+						op := " * "
+						if v.Tok == token.ADD_ASSIGN {
+							op = " + "
+						}
+						return ind + id.Name + " := " + id.Name + op + e + "\n"
 					}
 				}
 			}
@@ -1032,6 +1050,18 @@ func (t *gotr) loop(s ast.Stmt, rest []ast.Stmt, ind string, tail string) string
 					if c, ok := be.X.(*ast.CallExpr); ok && len(c.Args) == 1 {
 						if sel, ok := c.Fun.(*ast.SelectorExpr); ok && sel.Sel.Name == "Cmp" {
 							x, xt := t.expr(c.Args[0])
+							if xt == "*big.Int" && !strings.Contains(x, "←") {
+								fuel = append(fuel, "((bBitLen "+x+") + 1)")
+								return
+							}
+						}
+					}
+				}
+				// k.Cmp(one) > 0 with k shrinking: fuel bitlen(k) + 1
+				if be, ok := e.(*ast.BinaryExpr); ok && be.Op == token.GTR && Src(t.fset, be.Y) == "0" {
+					if c, ok := be.X.(*ast.CallExpr); ok && len(c.Args) == 1 {
+						if sel, ok := c.Fun.(*ast.SelectorExpr); ok && sel.Sel.Name == "Cmp" {
+							x, xt := t.expr(sel.X)
 							if xt == "*big.Int" && !strings.Contains(x, "←") {
 								fuel = append(fuel, "((bBitLen "+x+") + 1)")
 								return
